@@ -207,8 +207,9 @@ class HDFOutput(Output):
                 type_ = _to_str(h5obj.attrs['type'])
                 default = h5obj.attrs['default']
                 stride = h5obj.attrs.get('stride', 1)
-                if h5obj.attrs['stored']:
+                if h5obj.attrs.get('output', h5obj.attrs['stored']):
                     output_array.append(_to_str(pname))
+                if h5obj.attrs['stored']:
                     array.add_property(
                         prop_name, type=type_, default=default,
                         data=numpy.array(h5obj),
@@ -250,6 +251,7 @@ class HDFOutput(Output):
 
     def _set_properties(self, pdata, ptype_grp, data):
         c_kw = self._get_compress_options()
+        outputs = pdata.get('output_property_arrays', [])
         for propname, attributes in pdata['properties'].items():
             if propname in data:
                 array = data[propname]
@@ -263,6 +265,7 @@ class HDFOutput(Output):
                 if value is None:
                     value = 'None'
                 prop.attrs[attname] = value
+            prop.attrs['output'] = propname in outputs
 
     def _set_solver_data(self, grp):
         for name, data in self.solver_data.items():
